@@ -156,6 +156,9 @@ def term_zoo():
     add("Parameter", 0, lambda f: T.Parameter("?"))
     add("Parameter.idx", 0, lambda f: T.Parameter(idx=2))  # positional: the placeholder style is the dialect's
     # constructor parameters that usually receive a constant, given a term / a library singleton instead
+    add("functions.RegexpLike.mod", 3, lambda f: _F.RegexpLike(f[0], f[1], f[2]))
+    add("functions.RegexpMatches.modconst", 1, lambda f: _F.RegexpMatches(f[0], "^a", "gi"))
+    add("All.method", 1, lambda f: f[0].all_())
     add("Array.empty", 0, lambda f: T.Array())
     add("Tuple.single", 1, lambda f: T.Tuple(f[0]))
     add("functions.Extract.part", 2, lambda f: _F.Extract(f[0], f[1]))
